@@ -682,6 +682,22 @@ BindOffers ==
 BindRoundCat ==
   {[offers |-> Pick(BindOffers, oi), descs |-> ds, exec |-> Exec1] : oi \in {<<1>>, <<1, 2>>}, ds \in BindDescSets}
 
+\* PINNED descriptors (machine_id set in the role tree: the pre-match path of resourceOffers) whose TASK TEMPLATE declares a
+\* constraint of its own on another attribute, which the pinned host does / does not satisfy (o1 = hA: flp, rack r1;
+\* o2 = hB: epn, rack r1,r2; o3 = hC: flp, rack r2): the template's constraint applies on the pinned host like anywhere else
+PN(id, tmpl, group, task) ==
+  [id |-> id, chain |-> <<tmpl, group, task>>, cpu |-> 100, mem |-> 32, static_expr |-> "", tcp_inbound |-> 0, ipc_inbound |-> 0,
+   controllable |-> FALSE]
+PinDescCat ==
+  << PN("n1", <<Ct("machine_type", "epn")>>, <<>>, <<Ct("machine_id", "hA")>>),          \* hA is flp: nowhere
+     PN("n2", <<Ct("machine_type", "flp")>>, <<>>, <<Ct("machine_id", "hA")>>),          \* satisfied on hA
+     PN("n3", <<Ct("rack", "r3")>>, <<Ct("machine_id", "hB")>>, <<>>),                   \* hB has racks r1,r2: nowhere
+     PN("n4", <<Ct("rack", "r2"), Ct("machine_type", "epn")>>, <<Ct("machine_id", "hB")>>, <<>>),   \* satisfied on hB
+     PN("n5", <<Ct("machine_type", "flp"), Ct("rack", "r1")>>, <<Ct("machine_id", "hC")>>, <<Ct("zone", "z1")>>) >>  \* hC: rack r2, no zone
+PinRoundCat ==
+  {[offers |-> Pick(OfferCat, oi), descs |-> Pick(PinDescCat, di), exec |-> Exec1] :
+     oi \in {<<1, 2>>, <<1, 2, 3>>}, di \in IncSeqs(5, 2)}
+
 \* offers whose ports lie entirely or partly at or above the control-port threshold: only high ports (the stock Mesos
 \* range), fewer low ports than a task has TCP channels, low + high; controllable tasks with 1..3 inbound TCP
 \* channels, alone and several on one offer: dynamic ports then come from >= 30000 too and must stay distinct from the
@@ -734,7 +750,7 @@ RoundCat ==
      e \in IF Thorough THEN {NoExec, Exec1} ELSE {Exec1}}
 
 RoundInit == /\ c = NoCase
-             /\ \E x \in RoundCat \cup SharedRoundCat \cup PortRoundCat \cup HoleRoundCat \cup HistoryRoundCat \cup BindRoundCat : rd = RoundStart(x.offers, x.descs, x.exec)
+             /\ \E x \in RoundCat \cup SharedRoundCat \cup PortRoundCat \cup HoleRoundCat \cup HistoryRoundCat \cup BindRoundCat \cup PinRoundCat : rd = RoundStart(x.offers, x.descs, x.exec)
 RoundNext == ((\E oid \in Ids(rd.offers) : ProcessOffer(oid)) \/ Finish) /\ UNCHANGED c
 RoundSpec == RoundInit /\ [][RoundNext]_<<c, rd>>
 
